@@ -453,15 +453,14 @@ func (lu *LU) SolveVecTo(dst *VecDense, trans bool, b Vector) error {
 		dst.reuseAsNonZeroed(n)
 		return lu.SolveTo(dst.asDense(), trans, b)
 	case RawVectorer:
-		if dst != b {
-			dst.checkOverlap(rv.RawVector())
-		}
-
 		if !lu.ok {
 			return Condition(math.Inf(1))
 		}
 
 		dst.reuseAsNonZeroed(n)
+		if dst != b {
+			dst.checkOverlap(rv.RawVector())
+		}
 		var restore func()
 		if dst == b {
 			dst, restore = dst.isolatedWorkspace(b)
